@@ -1291,3 +1291,103 @@ V('C07', 'queue-sleep-plain', CRON, """                    try:
                         break""", """                    await asyncio.sleep(sleeptime - overhead)""", 'R07.3')
 E('C07', 'union-method', CRON, "for blk in set().union(*self._alarms.values()):  # all blocks", "for blk in {b for blks in self._alarms.values() for b in blks}:  # all blocks")
 E('C07', 'recalc-local', TD, "        self.recalc(self._cron.dtnow())", "        now = self._cron.dtnow()\n        self.recalc(now)")
+
+# ----------------------------------------------------------------------------- C08
+V('C08', 'f1-reverted', BLK, """    @classmethod
+    def shutdown(cls) -> Event:
+        return cls('_ctrl', 'shutdown')
+
+""", "", 'R08.11')
+V('C08', 'f6-reverted', SIM, """        init_done = asyncio.create_task(self._init_done.wait())
+        try:
+            await asyncio.wait([init_done, self._simtask], return_when=asyncio.FIRST_COMPLETED)
+        finally:
+            # do not leave the helper task pending if the simulation task has finished first
+            init_done.cancel()
+""", """        await asyncio.wait(
+            [asyncio.create_task(self._init_done.wait()), self._simtask],
+            return_when=asyncio.FIRST_COMPLETED)
+""", 'R08.5')
+V('C08', 'f7-reverted', SIM, """        finally:
+            # when cancelled, wait_for() cancels only the task being awaited;
+            # do not let the other tasks outlive the simulation
+            for _, task, _ in btt_list:
+                if not task.done():
+                    task.cancel()
+""", """        finally:
+            pass
+""", 'R08.5')
+V('C08', 'add-before-start', SIM, "                blk.start()\n                started_blocks.add(blk)\n", "                started_blocks.add(blk)\n                blk.start()\n", 'R08.1')
+V('C08', 'cleanup-bypassed', SIM, """        if isinstance(self._error, asyncio.CancelledError):
+            _logger.info("Normal circuit simulation stop")
+        else:""", """        if isinstance(self._error, asyncio.CancelledError):
+            _logger.info("Normal circuit simulation stop")
+        elif isinstance(self._error, EdzedInvalidState):
+            raise self._error
+        else:""", 'R08.2')
+V('C08', 'second-cancel-site', SIM, """        self.abort(asyncio.CancelledError('shutdown'))
+        try:
+            await self._simtask""", """        self.abort(asyncio.CancelledError('shutdown'))
+        self._simtask.cancel()
+        try:
+            await self._simtask""", 'R08.3')
+V('C08', 'stop-not-isolated', SIM, """        for blk in sync_blocks:
+            try:
+                blk.stop()
+            except Exception:
+                _logger.error("%s: ignored error in stop()", blk, exc_info=True)
+""", """        for blk in sync_blocks:
+            blk.stop()
+""", 'R08.4')
+V('C08', 'sync-first', SIM, """        sync_blocks = blocks.difference(async_blocks)
+
+        # 1. async blocks""", """        sync_blocks = blocks.difference(async_blocks)
+        for blk in sync_blocks:
+            try:
+                blk.stop()
+            except Exception:
+                _logger.error("%s: ignored error in stop()", blk, exc_info=True)
+        sync_blocks = ()
+
+        # 1. async blocks""", 'R08.4')
+V('C08', 'partition-overlap', SIM, "        sync_blocks = blocks.difference(async_blocks)\n", "        sync_blocks = blocks\n", 'R08.4')
+V('C08', 'fire-and-forget', S1, "    def start(self) -> None:\n        super().start()\n        self._queue = asyncio.Queue()\n\n\nclass ValuePoll", "    def start(self) -> None:\n        super().start()\n        self._queue = asyncio.Queue()\n        asyncio.create_task(asyncio.sleep(self._interval))\n\n\nclass ValuePoll", 'R08.5')
+V('C08', 'start-no-super', ADD, "    def start(self) -> None:\n        super().start()\n        self._init_event = asyncio.Event()", "    def start(self) -> None:\n        self._init_event = asyncio.Event()", 'R08.7')
+V('C08', 'sentinel-before-stopdata', S2, """            self._event_put(**self._stop_data)
+        self._queue.put_nowait(None)    # stop serving
+        super().stop()""", """            self._queue.put_nowait(None)    # stop serving
+            self._event_put(**self._stop_data)
+        else:
+            self._queue.put_nowait(None)    # stop serving
+        super().stop()""", 'R08.8')
+V('C08', 'simtask-reset', SIM, "        assert self._error is not None\n        raise self._error\n\n    def abort(", "        assert self._error is not None\n        self._simtask = None\n        raise self._error\n\n    def abort(", 'R08.9')
+V('C08', 'mtask-not-awaited', ADD, """        self._mtask.cancel()
+        try:
+            await self._mtask
+        except asyncio.CancelledError:
+            pass
+        finally:
+            self._mtask = None""", """        self._mtask.cancel()
+        self._mtask = None""", 'R08')
+V('C08', 'handler-not-restored', SIM, """        if self._signo is None:
+            return False
+        signal.signal(self._signo, self._saved_handler)
+        return False""", """        if self._signo is None or _exc_type is not None:
+            return False
+        signal.signal(self._signo, self._saved_handler)
+        return False""", 'R08.10')
+V('C08', 'stop-async-timeout-ge', SIM, "                and blk.stop_timeout > 0.0} # type: ignore[attr-defined]", "                and blk.stop_timeout > 1.0} # type: ignore[attr-defined]", 'R08.4')
+V('C08', 'outfunc-stopdata-after', S2, """        if self._stop_data is not None:
+            self._event_put(**self._stop_data)
+        super().stop()
+
+
+class InitAsync""", """        super().stop()
+        if self._stop_data is not None:
+            self._event_put(**self._stop_data)
+
+
+class InitAsync""", 'R08.8')
+V('C08', 'mode-tests-same', S2, "        if self._stop_data is not None and self._ctrl_coro == self._ctrl_start:\n            await self._output_coro_wrapper(self._stop_data)", "        if self._stop_data is not None:\n            await self._output_coro_wrapper(self._stop_data)", 'R08.8')
+E('C08', 'ensure-future', SIM, "        init_done = asyncio.create_task(self._init_done.wait())", "        init_done = asyncio.ensure_future(self._init_done.wait())")
+E('C08', 'rename-tasks', SIM, "            self.log_debug(\"Waiting for async cleanup\")\n            await self._run_tasks(\"stop\", wait_tasks)", "            self.log_debug(\"Waiting for async cleanup\")\n            stop_jobs = wait_tasks\n            await self._run_tasks(\"stop\", wait_tasks)")
